@@ -8,7 +8,9 @@ Models: Pywbem/Model/CimTypes.lean (CIMInt.__new__ incl. CPython int(), real tex
 Tables extracted from the repo on every run: Pywbem/Generated/CimTypes.lean, Pywbem/Generated/Config.lean.
 -/
 import Proofs.Lemmas.CimTypes
+import Proofs.Lemmas.CimUnpack
 import Proofs.Lemmas.DateTime
+import Proofs.Lemmas.DateTimeWF
 
 namespace C06
 open Pywbem.Proto Pywbem.Model.CimTypes Pywbem.Model.DateTime Pywbem.Model.CimValue
@@ -56,6 +58,12 @@ theorem C06_int_plain_int (t : IntTy) (v : Int) :
 theorem C06_int_constructor_errors (t : IntTy) (c : Call) (e : PyExc) (h : mkIntCfg t c = .error e) :
     e = .typeError ∨ e = .valueError ∨ e = .overflowError :=
   mkInt_err _ t c e h
+
+/-- a *text* with a decimal point is never accepted by an integer constructor (int() raises ValueError in every
+    base) — unlike a float, which is truncated (finding C06-KF3) -/
+theorem C06_int_rejects_text_with_point (t : IntTy) (s : List Char) (hs : '.' ∈ s) :
+    mkIntCfg t { pos := [.str s] } = .error .valueError := by
+  simp [mkIntCfg, mkInt, effArgs, pyInt, intOf1, intOfStr_dot s 10 (by omega) hs, bind, Except.bind]
 
 /-- the range check is what keeps the invariant: with the switch off an out-of-range object exists -/
 theorem C06_int_unchecked_fails_at :
@@ -139,6 +147,32 @@ theorem C06_dt_from_python_objects_wf :
     refine ⟨_, rfl, ?_⟩
     simp [WF, h1, h2]; omega
 
+/-- **every state the string constructor can produce is well-formed** — for ALL input strings (arbitrary length and
+    characters): the precision is one of the 11 (timestamp) / 10 (interval) reachable indices and every field behind
+    it holds the value the constructor substitutes for asterisks.  This discharges the `WF` hypothesis of the
+    round-trip theorem for every object that can exist. -/
+theorem C06_dt_parse_wf (s : List Char) (x : DT) (h : parse s = .ok x) : WF x = true :=
+  parse_wf s x h
+
+/-- every constructor path (str, datetime, timedelta, copy of a well-formed CIMDateTime) yields a well-formed state -/
+theorem C06_dt_construct_wf (a : DtArg) (x : DT) (hv : a.valid = true) (h : construct a = .ok x) : WF x = true := by
+  cases a with
+  | str s => exact parse_wf s x (by simpa [construct] using h)
+  | datetime y mo d hh mi s us off =>
+    simp [construct] at h; subst h; simpa [WF, DtArg.valid] using hv
+  | timedelta days secs us =>
+    simp [construct] at h; subst h
+    simp [DtArg.valid] at hv
+    simp [WF, hv]; omega
+  | cimdt x0 => simp [construct] at h; subst h; simpa [DtArg.valid] using hv
+  | other => simp [construct] at h
+
+/-- **the property for every CIMDateTime object that can be constructed**: if its value is expressible in DSP0004,
+    str() gives 25 characters and the string constructor gives the same object back (kind, fields, offset, precision) -/
+theorem C06_dt_roundtrip_of_constructed (a : DtArg) (x : DT) (hv : a.valid = true) (h : construct a = .ok x)
+    (he : Expressible x = true) : ∃ s, toStr x = .ok s ∧ s.length = 25 ∧ construct (.str s) = .ok x :=
+  C06_dt_roundtrip x (C06_dt_construct_wf a x hv h) he
+
 /-- outside "expressible" the 25-character claim fails (not a violation, recorded as an observation):
     100 000 000 days print with 26 characters, −1 day prints a sign -/
 theorem C06_dt_not_expressible_fails_at :
@@ -187,6 +221,23 @@ theorem C06_real_fixup_shape (g : GText) (h : g.ok = true) :
 theorem C06_real_roundtrip (R : RealCodec) (x : Nat) (hx : R.finite x = true) :
     R.parse (fixup (R.fmt x)) = some x :=
   real_roundtrip R x hx
+
+/-- the parse side (pywbem/_tupleparse.py unpack_numeric): every DSP0201 realValue text is read through float() —
+    never through the hexadecimal or int() branch — and comes back as Real64 / Real32 -/
+theorem C06_real_text_parsed_by_float (g : GText) (h : g.isRealValue = true) (b : Nat) :
+    unpackNumeric (some b) g.render .real64 = .ok (.real64 b) ∧
+    unpackNumeric (some b) g.render .real32 = .ok (.real32 b) := by
+  have := unpackNumeric_realValue g h (some b)
+  simpa using this
+
+/-- **written and read back**: the text atomic_to_cim_xml produces for a finite real, given to unpack_numeric with
+    the codec's own float(), yields a Real64 object with the same bits (same RealCodec hypotheses) -/
+theorem C06_real_xml_roundtrip (R : RealCodec) (x : Nat) (hx : R.finite x = true) :
+    unpackNumeric (R.parse (fixup (R.fmt x))) (fixup (R.fmt x)) .real64 = .ok (.real64 x) := by
+  obtain ⟨g, hg, hfmt⟩ := R.shape x hx
+  have hrt := C06_real_roundtrip R x hx
+  rw [hrt, hfmt, (C06_real_fixup_shape g hg).1]
+  exact (C06_real_text_parsed_by_float g.withFraction (C06_real_fixup_shape g hg).2 x).1
 
 /-- the RealCodec hypotheses are satisfiable (a one-value toy codec) -/
 example : RealCodec :=
